@@ -6,6 +6,7 @@ CONSTANTS
   Unit = FALSE
   Variant = "eofok"
   MaxCalls = 4
+  AllocFail = FALSE
   Trunc = {9, 7, 4}
 INVARIANTS NoReleaseBeforeVerify HistoryIndependence SequentialPrefix NoSilentTruncation
 PROPERTY EveryCallReturns
